@@ -288,7 +288,8 @@ def main():
     os.makedirs(WORK, exist_ok=True)
     os.makedirs(EVID, exist_ok=True)
     known, _fixed = load_known()
-    known = [k for k in known if k["property"] == pid]
+    # a finding belongs to one property; `also` names other properties whose checks run the same unit
+    known = [k for k in known if k["property"] == pid or pid in k.get("also", [])]
     violations = []      # (replay_path, suffix)
     known_hits = {}      # fingerprint -> count
     obligations = []     # (name, discharged: bool)
